@@ -29,6 +29,7 @@ type Case struct {
 	Impl       string   // what the implementation returned (s-expression)
 	Tags       []string // for the input-distribution report
 	Nontrivial bool     // reached a non-default branch (stream-specific rule)
+	Sprint     *encCtx  // answers to `sprint` residual queries about the case's value (may be nil)
 }
 
 type Stream struct {
@@ -183,7 +184,7 @@ func ask(d *Driver, cs *Case) (Reply, error) {
 	if cs.OpFn == nil {
 		return d.Ask(cs.Op + " | " + cs.Impl)
 	}
-	r, line, err := askWithExt(d, func(ext string) string { return cs.OpFn(ext) + " | " + cs.Impl })
+	r, line, err := askWithExt(d, cs.Sprint, func(ext string) string { return cs.OpFn(ext) + " | " + cs.Impl })
 	if i := strings.LastIndex(line, " | "); i >= 0 {
 		cs.Op = line[:i]
 	}
